@@ -1,9 +1,11 @@
 (* C12 driver.  Inputs (pairs = id weight id weight ...; probes = ids queried afterwards)
      B <mode> pairs ; probes     build a set (mode: how the harness constructs it)  obs: VS | PANIC
      R <mode> pairs ; probes     build, rlp-encode, generic-decode the bytes (ARR), decode into
-                                 Validators (DEC), re-encode (SAME)        obs: ORIG VS ARR k id w.. DEC VS SAME b | PANIC
+                                 Validators (DEC), re-encode (SAME), the bytes themselves (RAW, compared
+                                 with the model's RLP encoder)   obs: ORIG VS ARR k id w.. DEC VS SAME b RAW hex | PANIC
      D pairs ; probes            rlp-encode the array AS GIVEN (any order, zeros, duplicates),
-                                 DecodeBytes into Validators                obs: VS | PANIC
+                                 DecodeBytes into Validators; model: its own writer, reader, builder
+                                                                            obs: VS RAW hex | PANIC
      G pairs ; probes            big builder, stakes up to 2^256            obs: VS | PANIC
    VS = n I ids W weights X idxs T total L len(Idxs) GI GetID.. GW GetWeightByIdx.. P (get exists getidx)*
    spec side (PosSpec): the reported order is the canonical arrangement (by rank, no sort) of the
@@ -70,11 +72,22 @@ let eval inp obs =
   let head = List.hd groups in
   let probes = (match groups with [_; p] -> List.map n_of_tok p | _ -> []) in
   match head with
-  | "B" :: _ :: rest | "D" :: _ :: rest ->
+  | "B" :: _ :: rest ->
     let ops = pairs_of rest in
     let model_obs = (match build ops with None -> ["PANIC"] | Some vs -> vs_obs vs probes) in
     { default_verdict with model_obs; spec_ok = Some (small_spec ops probes obs);
       model_spec_ok = small_spec ops probes model_obs;
+      nontrivial = List.length (eff_pairs ops) >= 2 }
+  | "D" :: _ :: rest ->
+    (* the wire array as given -> model writer -> model reader -> builder *)
+    let ops = pairs_of rest in
+    let bytes = rlp_array ops in
+    let model_obs = (match decode_rlp bytes with
+      | None -> ["PANIC"]
+      | Some vs -> vs_obs vs probes @ ["RAW"; hex_of_bytes bytes]) in
+    let strip o = (match sections ["RAW"] o with (_, a) :: _ -> a | [] -> o) in
+    { default_verdict with model_obs; spec_ok = Some (small_spec ops probes (strip obs));
+      model_spec_ok = small_spec ops probes (strip model_obs);
       nontrivial = List.length (eff_pairs ops) >= 2 }
   | "R" :: _mode :: rest ->
     let ops = pairs_of rest in
@@ -88,13 +101,13 @@ let eval inp obs =
          | None -> ["PANIC"]
          | Some vs2 ->
            ("ORIG" :: vs_obs vs probes) @ ("ARR" :: arr_toks arr) @ ("DEC" :: vs_obs vs2 probes)
-           @ ["SAME"; tok_of_bool (encode vs2 = arr)])) in
+           @ ["SAME"; tok_of_bool (encode vs2 = arr); "RAW"; hex_of_bytes (encode_rlp vs)])) in
     let spec o =
       let pairs = eff_pairs ops in
       (match o with
        | ["PANIC"] -> not (fits pairs)
        | _ ->
-         let s = sections ["ORIG"; "ARR"; "DEC"; "SAME"] o in
+         let s = sections ["ORIG"; "ARR"; "DEC"; "SAME"; "RAW"] o in
          let arr = sec "ARR" s in
          fits pairs
          && vs_spec pairs (eff ops) (spec_idx ops) probes (sec "ORIG" s)
